@@ -465,6 +465,28 @@ pub fn run(tier: &str, seed: u64, out: &str) {
             paths(&r.pos, depth, &mut Vec::new(), &mut all);
             fen_states.extend(all.into_iter().map(|(_, p)| p));
         }
+        // positions with move lists as long as chess allows (218 legal moves, promotions by the
+        // dozen): as FENs, and every one of their legal moves as a one-move list
+        let extreme = crate::roots::extreme_roots().unwrap_or_else(|e| {
+            eprintln!("MACHINERY ERROR: {}", e);
+            std::process::exit(2)
+        });
+        let mut extreme_cmds = 0u64;
+        {
+            let jobs: Vec<(Pos, Mv)> = extreme.iter().flat_map(|r| r.pos.legal_moves().into_iter().map(move |m| (r.pos.clone(), m))).collect();
+            let done: Vec<u64> = par_map_init(&jobs, Engine::new, |e, (p, m)| {
+                let c = format!("position fen {} moves {}", p.fen(0, 1), m.uci());
+                check(e, &rep, &[&c], &p.make(*m));
+                1
+            });
+            extreme_cmds += done.iter().sum::<u64>();
+            commands.fetch_add(extreme_cmds, Ordering::Relaxed);
+            transitions_total += extreme_cmds;
+        }
+        for r in &extreme {
+            fen_states.push(r.pos.clone());
+        }
+        eprintln!("[C04] extreme roots: {} one-move lists ({:.1}s)", extreme_cmds, rep.elapsed());
         let mut seen = std::collections::HashSet::new();
         fen_states.retain(|p| seen.insert(p.fen4()));
         let counts: Vec<(u64, u64)> = par_map_init(&fen_states, Engine::new, |e, p| {
